@@ -59,12 +59,14 @@ def fast_2sum(a: fp.Real, b: fp.Real):
     - `t` is the error term such that `s + t = a + b`.
 
     Assumes that:
-    - `|a| >= |b|`;
+    - `|a| >= |b|`, or `a` is zero;
     - the rounding context is floating point;
     - the rounding mode is round-nearest.
     """
 
-    assert core.isnar(a) or core.isnar(b) or abs(a) >= abs(b)
+    # (a zero `a` is fine whatever `b` is: then `s = b` and `t = 0`; the last
+    # step of `classic_2fma` relies on it)
+    assert core.isnar(a) or core.isnar(b) or a == 0 or abs(a) >= abs(b)
 
     s = a + b
     z = s - a
